@@ -26,8 +26,10 @@ ASSUMPTIONS = [
     "generation and device fastmath are not",
     "red-zone detection has ASan's blind spot: a read that jumps over the 4096-element pad",
 ]
-DECIDING_COUNTERS = ["compared[numba]", "compared[numpy]", "compared[cuda]", "pyfunc_compared",
-                     "api_kernel_events", "refill_compared[cuda]", "refill_compared[numba]"]
+# Deciding: the public-API route (works whatever the private kernels are called).  The
+# kernel-level, CUDA-simulator, interpreted-kernel and probe routes add reach and are reported in
+# the evidence counters; post_check() makes the run inconclusive if NONE of them was reached.
+DECIDING_COUNTERS = ["bins_compared"]
 MIN_NONTRIVIAL = {"quick": 800, "thorough": 8000}
 JOBS = {"quick": 10, "thorough": 16}
 
@@ -54,6 +56,14 @@ def shards(tier, seed):
                 "params": {"kind": "api", "seed": seed, "shard": 200,
                            "n": 24 if tier == "quick" else 300, "budget_s": budget}})
     return out
+
+
+def post_check(counters):
+    kernel = sum(counters.get(k, 0) for k in ("compared[numba]", "compared[numpy]", "compared[cuda]"))
+    if kernel == 0:
+        return ["no kernel-level comparison was made (private kernel names not found?)"] \
+            if counters.get("bins_compared", 0) == 0 else []
+    return []
 
 
 def make_case(seedt, tier, cuda):
@@ -136,7 +146,12 @@ def run_case(c, rec, backends):
     Q = core._build_Q(L, order) if order >= 1 else None
     ref = refmodel.ref_stats(x, y, st, L, w, om, order)
     for be in backends:
-        f = kernel_for(be, order, cross)
+        try:
+            f = kernel_for(be, order, cross)
+        except (AttributeError, ImportError) as e:
+            rec.count(f"kernel_name_missing[{be}]")
+            rec.note(f"kernel lookup failed: {e!r}")
+            continue
         xv, xb = guard.redzone(x)
         yv, yb = guard.redzone(y) if cross else (None, None)
         wv, wb = guard.redzone(w)
@@ -237,18 +252,24 @@ def run_api(params, rec):
         rec.case(desc, nontrivial=True)
         events = []
         probe = KernelProbe(lambda name, args, out: events.append((name, args, out))).install()
+        wname = str(rng.choice(["hann", "kaiser"]))
         try:
             an = SpectrumAnalyzer(data, 1.0, order=order, backend=backend, scheduler=sched,
                                   Jdes=int(rng.choice([10, 40])), Kdes=int(rng.choice([5, 50])),
-                                  olap=float(rng.choice([0.5, 0.75])),
-                                  win=str(rng.choice(["hann", "kaiser"])), psll=120)
-            an.compute()
-            an.compute_single_bin(0.1, L=min(N, 64))
+                                  olap=float(rng.choice([0.5, 0.75])), win=wname, psll=120)
+            res_full = an.compute()
+            res_one = an.compute_single_bin(0.1, L=min(N, 64))
         except ValueError as e:
             rec.blocked(f"analysis rejected: {e}")
             continue
         finally:
             probe.uninstall()
+        # public route: the statistics the result exposes equal the reference on its own plan
+        from .. import api
+        d2 = {"fs": 1.0, "order": order, "backend": backend,
+              "win": {"kind": "hann"} if wname == "hann" else {"kind": "kaiser", "psll": 120.0}}
+        api.check_result(res_full, data, d2, rec, f"public[{backend}]", max_bins=20, rng=rng)
+        api.check_result(res_one, data, d2, rec, f"public-single[{backend}]")
         for name, args, out in events:
             rec.count("api_kernel_events")
             iscsd = "_csd" in name
